@@ -9,7 +9,7 @@
    (PStart true -> hit | wait again | create) — the `for ok` loop; any label (a third caller, a cleaning pass, ...)
    may stand between them. *)
 From Coq Require Import List ZArith Permutation Lia.
-From C18 Require Import Model ProofsRelease ProofsManaged ProofsCoherent ProofsPayload ProofsAcct ProofsBound ProofsListing ProofsFull ProofsSingle ProofsPass.
+From C18 Require Import Model ProofsRelease ProofsManaged ProofsCoherent ProofsPayload ProofsAcct ProofsBound ProofsListing ProofsFull ProofsSingle ProofsPass ProofsHonest.
 Import ListNotations.
 
 (* Coherence, all interleavings (no domain restriction): a lookup that returned a value returned a
@@ -51,6 +51,30 @@ Theorem C18_accounting_total : forall lim mg es ls st,
   no_stale_attached st -> acct st = live st.
 Proof. exact accounting_total. Qed.
 Print Assumptions C18_accounting_total.
+
+(* The size field is honest, all interleavings (no domain restriction): every valid entry that is in a payload map carries
+   size = entrySize + the size that its loader (the loader of the goroutine that created it, whose value it holds)
+   reported; an entry in a map that is not valid (still loading) carries 0; so the sum of the size fields of the live
+   entries (live) is what they really occupy (occupied). save's `if e.deleted { size = 0 }` never zeroes an entry that stays. *)
+Theorem C18_sizes_honest : forall lim mg es ls st,
+  run (init lim mg es) ls = Some st ->
+  (forall e en, nth_error (entries st) e = Some en -> eattached en = true ->
+     match estat en with
+     | EValid => exists th s, nth_error (threads st) (eowner en) = Some th /\ tout th = OVal (evalue en) s /\
+                              esize en = (es + s)%Z
+     | _ => esize en = 0%Z
+     end) /\
+  live st = occupied st.
+Proof. exact sizes_honest. Qed.
+Print Assumptions C18_sizes_honest.
+
+(* ... hence, under the hypotheses of C18_accounting_total, the size the cleaner accounts is what the live entries occupy *)
+Theorem C18_accounting_occupied : forall lim mg es ls st,
+  (0 <= es)%Z -> Forall label_ok ls ->
+  run (init lim mg es) ls = Some st -> race_free (init lim mg es) ls = true ->
+  no_stale_attached st -> acct st = occupied st.
+Proof. exact accounting_occupied. Qed.
+Print Assumptions C18_accounting_occupied.
 
 (* Every cache that was not released is in the cleaner's bucket list — all interleavings, including
    NewCache / Release between the two halves of ReleaseBuckets. *)
